@@ -635,8 +635,16 @@ func (r *nodeRun) scenario(outDir string, n, t int, twoRounds bool) {
 		}
 		return k
 	}
+	opsAtStart := r.st.Ops
 	pumpAll := func(maxRounds int) {
 		for i := 0; i < maxRounds; i++ {
+			if r.st.Ops-opsAtStart > 6000 {
+				// something keeps the ceremony busy for ever (e.g. retired operations that come back): enough has been seen
+				if len(r.st.Notes) < 30 {
+					r.st.Notes = append(r.st.Notes, "scenario cut short after 6000 operations")
+				}
+				return
+			}
 			moved := observerPoll()
 			for _, nd := range c.nodes {
 				if nd == obs {
